@@ -933,6 +933,18 @@ func c18Fixed(env *core.Env, totality bool) {
 		{"Add(to literal)", func(r fhir.Resource) error { return patch.Add(r, "1", "value", &dtpb.String{Value: "g"}, &patch.Options{}) }, false, false},
 		{"Add(empty name)", func(r fhir.Resource) error { return patch.Add(r, "Patient", "", &dtpb.String{Value: "g"}, &patch.Options{}) }, false, false},
 		{"Move(anything)", func(r fhir.Resource) error { return patch.Move(r, "Patient.name", 0, 1) }, false, false},
+		// paths using constructs the compiler does not support, or that are not navigation at all: an error, never a crash
+		{"Delete(equivalence)", func(r fhir.Resource) error { return patch.Delete(r, "1 ~ 1") }, false, false},
+		{"Delete(where with ~)", func(r fhir.Resource) error { return patch.Delete(r, "Patient.name.where(family ~ 'smith')") }, false, false},
+		{"Replace(where with !~)", func(r fhir.Resource) error { return patch.Replace(r, "Patient.name.where(family !~ 'x')", hn) }, false, false},
+		{"Delete(union)", func(r fhir.Resource) error { return patch.Delete(r, "Patient.name[0] | Patient.name[1]") }, false, false},
+		{"Delete(in)", func(r fhir.Resource) error { return patch.Delete(r, "Patient.name.where(family in ('a'))") }, false, false},
+		{"Insert(contains)", func(r fhir.Resource) error { return patch.Insert(r, "Patient.name.where(given contains 'Ann')", hn, 0) }, false, false},
+		{"Delete(unimplemented function)", func(r fhir.Resource) error { return patch.Delete(r, "Patient.name.trace('t')") }, false, false},
+		{"Add(path with ~)", func(r fhir.Resource) error { return patch.Add(r, "Patient.where(id ~ 'p1')", "name", hn, &patch.Options{}) }, false, false},
+		{"Delete(arithmetic)", func(r fhir.Resource) error { return patch.Delete(r, "Patient.name[0 + 0].family & 'x'") }, false, false},
+		{"Delete(boolean)", func(r fhir.Resource) error { return patch.Delete(r, "Patient.active and true") }, false, false},
+		{"Delete(malformed escape)", func(r fhir.Resource) error { return patch.Delete(r, "Patient.name.where(family = '\\u12')") }, false, true},
 	}
 	for _, c := range cases {
 		r := p()
